@@ -240,7 +240,7 @@ func ReadBack(ctx context.Context, acc eds.AccessorStreamer, ref *Ref, o Opts) (
 	reads++
 	if err != nil {
 		bad("AxisRoots", "error %v", err)
-	} else if !roots.Equals(ref.Roots) {
+	} else if !rootsEqual(roots, ref.Roots) {
 		bad("AxisRoots", "differ")
 	}
 
@@ -494,7 +494,7 @@ func ReadSome(ctx context.Context, acc eds.AccessorStreamer, ref *Ref, rnd *rand
 		case k == 7:
 			roots, err := acc.AxisRoots(ctx)
 			reads++
-			if err != nil || !roots.Equals(ref.Roots) {
+			if err != nil || !rootsEqual(roots, ref.Roots) {
 				bad("AxisRoots", "err=%v / differ", err)
 			}
 			dh, err := acc.DataHash(ctx)
@@ -519,4 +519,25 @@ func ReadSome(ctx context.Context, acc eds.AccessorStreamer, ref *Ref, rnd *rand
 		}
 	}
 	return out, reads
+}
+
+// rootsEqual compares axis roots slice by slice. It deliberately does not use AxisRoots.Equals/Hash:
+// Hash() memoizes its result inside the object without synchronisation and the store hands the SAME
+// *AxisRoots to every reader of a cached accessor, so hashing it from two readers is a data race of
+// the caller's making.
+func rootsEqual(a, b *share.AxisRoots) bool {
+	if a == nil || b == nil || len(a.RowRoots) != len(b.RowRoots) || len(a.ColumnRoots) != len(b.ColumnRoots) {
+		return false
+	}
+	for i := range a.RowRoots {
+		if !bytes.Equal(a.RowRoots[i], b.RowRoots[i]) {
+			return false
+		}
+	}
+	for i := range a.ColumnRoots {
+		if !bytes.Equal(a.ColumnRoots[i], b.ColumnRoots[i]) {
+			return false
+		}
+	}
+	return true
 }
